@@ -136,7 +136,9 @@ pub enum Op {
 	Dbg(Src),
 	DropV(u8),
 	/// R <- Reader::from_slice / from_reader over the container file of the codec
-	Open(RKind, Codec),
+	/// (the third field selects the file: 0 = two small blocks, 1 = four blocks whose decompressed sizes go
+	/// up / down / up beyond the first / up, see `fixtures::SIZED_LENS`)
+	Open(RKind, Codec, u8),
 	/// V <- next value of R
 	Next(Tgt),
 	/// B <- R.schema().clone()  (into the first free Arc handle slot)
@@ -169,7 +171,8 @@ impl Op {
 			Op::De(s, t) => format!("De{}{}", s.letter(), t.letter()),
 			Op::Dbg(s) => format!("Dg{}", s.letter()),
 			Op::DropV(i) => format!("Xv{i}"),
-			Op::Open(k, c) => format!("Op{}{}", k.letter(), c.letter()),
+			Op::Open(k, c, 0) => format!("Op{}{}", k.letter(), c.letter()),
+			Op::Open(k, c, f) => format!("Op{}{}{f}", k.letter(), c.letter()),
 			Op::Next(t) => format!("Nx{}", t.letter()),
 			Op::RSchema => "Rs".into(),
 			Op::MoveR => "Mr".into(),
@@ -202,7 +205,7 @@ impl Op {
 			"De" => only(2).map(|_| ()).and_then(|_| Some(Op::De(Src::from_letter(ch(0)?)?, Tgt::from_letter(ch(1)?)?)))?,
 			"Dg" => only(1).and_then(|_| Src::from_letter(ch(0)?)).map(Op::Dbg)?,
 			"Xv" => Op::DropV(num(0).filter(|v| *v < 2)?),
-			"Op" => only(2).map(|_| ()).and_then(|_| Some(Op::Open(RKind::from_letter(ch(0)?)?, Codec::from_letter(ch(1)?)?)))?,
+			"Op" => Op::Open(RKind::from_letter(ch(0)?)?, Codec::from_letter(ch(1)?)?, if rest.len() == 2 { 0 } else { num(2).filter(|f| *f < fixtures::N_FILE_VARIANTS)? }),
 			"Nx" => only(1).and_then(|_| Tgt::from_letter(ch(0)?)).map(Op::Next)?,
 			"Rs" => only(0).map(|_| Op::RSchema)?,
 			"Mr" => only(0).map(|_| Op::MoveR)?,
@@ -254,8 +257,8 @@ impl Op {
 			Op::De(s, t) => format!("v = from_datum_slice::<{t:?}>(datum, &{})", src(s)),
 			Op::Dbg(s) => format!("format!(\"{{:?}}\", {})", src(s)),
 			Op::DropV(i) => format!("drop(v{i})"),
-			Op::Open(RKind::Slice, c) => format!("reader = Reader::from_slice({c:?} file)"),
-			Op::Open(k, c) => format!("reader = Reader::from_reader({k:?} over {c:?} file)"),
+			Op::Open(RKind::Slice, c, f) => format!("reader = Reader::from_slice({c:?} file{})", if f == 0 { "" } else { " with 4 blocks of 100/8/150/250-byte strings" }),
+			Op::Open(k, c, f) => format!("reader = Reader::from_reader({k:?} over {c:?} file{})", if f == 0 { "" } else { " with 4 blocks of 100/8/150/250-byte strings" }),
 			Op::Next(t) if t.borrowing() => format!("v = reader.deserialize_next_borrowed::<{t:?}>()"),
 			Op::Next(t) => format!("v = reader.deserialize_next::<{t:?}>()"),
 			Op::RSchema => "<free arc slot> = reader.schema().clone()".into(),
@@ -284,8 +287,10 @@ pub fn parse_history(s: &str) -> Option<Vec<Op>> {
 pub struct Profile {
 	pub name: &'static str,
 	pub depth: usize,
-	/// (reader kind, codec) pairs offered to Open
+	/// (reader kind, codec) pairs offered to Open (file 0)
 	pub opens: Vec<(RKind, Codec)>,
+	/// (reader kind, codec) pairs offered to Open with the "sized" file (file 1)
+	pub opens_sized: Vec<(RKind, Codec)>,
 	/// schema texts offered to Parse / ParseS
 	pub texts: Vec<u8>,
 	/// graphs offered to Build
@@ -319,6 +324,7 @@ impl Profile {
 			name: "wide",
 			depth: 4,
 			opens: product(&[RKind::Slice, RKind::Buf], &Codec::PURE),
+			opens_sized: vec![(RKind::Slice, Codec::Snappy), (RKind::Buf, Codec::Snappy), (RKind::Buf, Codec::Deflate)],
 			texts: vec![0, 2],
 			builds: vec![0, 1],
 			// key = len at every position for the array kind; the other kinds at the last (and the union
@@ -342,6 +348,11 @@ impl Profile {
 			name: "full",
 			depth: 4,
 			opens,
+			opens_sized: {
+				let mut v = product(&[RKind::Slice], &Codec::ALL);
+				v.extend([(RKind::Buf, Codec::Snappy), (RKind::Buf, Codec::Zstd), (RKind::Chunked, Codec::Snappy)]);
+				v
+			},
 			texts: (0..fixtures::N_TEXTS).collect(),
 			builds: (0..fixtures::N_BUILDS).collect(),
 			// every kind x key class at the last position, every position for the union kind with key =
@@ -368,6 +379,7 @@ impl Profile {
 		p.name = "ccodecs";
 		p.depth = 4;
 		p.opens = product(&[RKind::Slice, RKind::Buf], &[Codec::Bzip2, Codec::Xz, Codec::Zstd]);
+		p.opens_sized = product(&[RKind::Slice], &[Codec::Bzip2, Codec::Xz, Codec::Zstd]);
 		p
 	}
 	/// The alphabet Miri sweeps exhaustively (pure-Rust codecs; one representative per argument class).
@@ -376,6 +388,8 @@ impl Profile {
 			name: "core",
 			depth: 3,
 			opens: vec![(RKind::Slice, Codec::Null), (RKind::Slice, Codec::Snappy), (RKind::Buf, Codec::Deflate)],
+			// (the sized files are read to the end in `extras`)
+			opens_sized: vec![],
 			texts: vec![0],
 			builds: vec![0],
 			// (every bad graph is in `extras`; one stays in the product alphabet: unreachable union, key = len)
@@ -395,6 +409,7 @@ impl Profile {
 			name: "core4",
 			depth: 4,
 			opens: vec![(RKind::Slice, Codec::Snappy), (RKind::Buf, Codec::Null)],
+			opens_sized: vec![],
 			texts: vec![0],
 			builds: vec![0],
 			bad_graphs: vec![],
@@ -414,6 +429,8 @@ impl Profile {
 		p.depth = 5;
 		p.texts = vec![0];
 		p.builds = vec![0];
+		// depth 5 reaches the fourth block of the sized files
+		p.opens_sized = vec![(RKind::Slice, Codec::Snappy), (RKind::Buf, Codec::Snappy)];
 		p.bad_graphs = vec![fixtures::bad_index('A', 1, 0), fixtures::bad_index('U', fixtures::N_GOOD, 0), fixtures::BAD_EMPTY as u8, fixtures::BAD_EMPTY as u8 + 1];
 		p
 	}
@@ -480,7 +497,26 @@ impl Profile {
 				out.push(h);
 			}
 		}
+		// the sized files read to the end (decompression buffer reused with len < capacity, then grown),
+		// values kept and re-read after the reader is gone
+		let pure_sized = [(RKind::Slice, Codec::Snappy), (RKind::Buf, Codec::Snappy), (RKind::Slice, Codec::Deflate), (RKind::Buf, Codec::Deflate), (RKind::Slice, Codec::Null)];
+		for (k, c) in pure_sized {
+			let t = if k == RKind::Slice { Tgt::Cow } else { Tgt::Owned };
+			out.push(vec![Op::Open(k, c, 1), Op::Next(t), Op::Next(t), Op::Next(t), Op::Next(t), Op::Next(t), Op::DropR(0)]);
+		}
+		out.push(vec![Op::Open(RKind::Slice, Codec::Snappy, 1), Op::Next(Tgt::Any), Op::Next(Tgt::Owned), Op::DropV(0), Op::Next(Tgt::Any), Op::DropR(1), Op::DropV(1)]);
+		out.push(vec![Op::Open(RKind::Slice, Codec::Snappy, 1), Op::Next(Tgt::Owned), Op::Next(Tgt::Owned), Op::MoveR, Op::Next(Tgt::Owned), Op::RSchema, Op::Next(Tgt::Owned), Op::DropR(0), Op::Dbg(Src::A)]);
 		debug_assert!(out.iter().all(|h| admissible(h).is_some()));
+		out
+	}
+	/// The sized files of the C codecs read to the end (native, AddressSanitizer, valgrind only).
+	pub fn extras_ccodecs() -> Vec<Vec<Op>> {
+		let mut out = Vec::new();
+		for c in [Codec::Bzip2, Codec::Xz, Codec::Zstd] {
+			for (k, t) in [(RKind::Slice, Tgt::Cow), (RKind::Buf, Tgt::Owned), (RKind::Chunked, Tgt::Owned)] {
+				out.push(vec![Op::Open(k, c, 1), Op::Next(t), Op::Next(t), Op::Next(t), Op::Next(t), Op::Next(t), Op::DropR(0)]);
+			}
+		}
 		out
 	}
 }
@@ -576,7 +612,7 @@ impl Abs {
 				}
 			}
 			Op::DropV(i) => self.v[i as usize] = false,
-			Op::Open(k, _) => self.r = Some(k),
+			Op::Open(k, _, _) => self.r = Some(k),
 			Op::MoveR => {}
 			Op::DropR(_) => self.r = None,
 		}
@@ -610,7 +646,8 @@ impl Abs {
 		all.push(Op::DropC);
 		all.push(Op::DropV(0));
 		all.push(Op::DropV(1));
-		all.extend(p.opens.iter().map(|(k, c)| Op::Open(*k, *c)));
+		all.extend(p.opens.iter().map(|(k, c)| Op::Open(*k, *c, 0)));
+		all.extend(p.opens_sized.iter().map(|(k, c)| Op::Open(*k, *c, 1)));
 		all.extend(p.next_targets.iter().map(|t| Op::Next(*t)));
 		all.push(Op::RSchema);
 		all.push(Op::MoveR);
